@@ -209,12 +209,15 @@ Section Decoded.
     - cbn [ser_valid] in Hv. cbn [decodeABIElement].
       destruct (isDynamicType (TCFixedArr len ch k)).
       + destruct (decodeABILength block hp) as [ho| |]; cbn [bind]; try discriminate.
+        destruct ((len >? 0) && ((len - 1) * 32 >=? zlen block - (hs + ho))); [discriminate|].
         destruct (len <? 0); [discriminate|].
         unfold walkDynamicChildArrayABIBytes_rep.
         destruct (loop_elems (decodeABIElement block ch (hs + ho)) len (hs + ho)) as [[rd xs]| |] eqn:El; cbn [bind]; try discriminate.
         intros E; injection E as _ <-. cbn [ser_ok].
         eapply loop_elems_forall; [|exact El]. intros pos k0 y Hy. eapply IH; eauto.
-      + unfold decodeABIFixedArrayBytes. destruct (len <? 0); [discriminate|].
+      + unfold decodeABIFixedArrayBytes.
+        destruct ((len >? 0) && occupiesHeadBytes ch && ((len - 1) * 32 >=? zlen block - hp)); [discriminate|].
+        destruct (len <? 0); [discriminate|].
         destruct (loop_elems (decodeABIElement block ch hs) len hp) as [[rd xs]| |] eqn:El; cbn [bind]; try discriminate.
         intros E; injection E as _ <-. cbn [ser_ok].
         eapply loop_elems_forall; [|exact El]. intros pos k0 y Hy. eapply IH; eauto.
